@@ -783,7 +783,9 @@ def readsOf (e : Env) : DecOp → Info → Option (List Read)
 /-- the memory after a step (independent of the reads' verdict) -/
 def nextMem (m : Memory) : DecOp → Info → Memory
   | .block b, .block i => writePieces m b.ofm.region i.ofm.tid (fmPiecesS b.ofm i.ofm.y0 i.ofm.x0 i.ofm.c0 i.ofm.shifts) 0
-  | .dma d, .dma i => writePieces m d.dst.region i.dstTid [⟨d.dst.addr, d.dst.len, i.dstDelta⟩] 0
+  | .dma d, .dma i =>
+    writePieces (writePieces m d.dst.region junkTid [⟨d.dst.addr, d.dst.len, 0⟩]) d.dst.region i.dstTid
+      [⟨d.dst.addr, i.validLen d.dst.len, i.dstDelta⟩] 0
   | _, _ => m
 
 /-- a step is fine in memory `m`: kinds agree and all its reads are satisfied -/
@@ -795,7 +797,8 @@ theorem step_snd (e : Env) (m : Memory) (idx : Nat) (op : DecOp) (info : Info) :
   cases op <;> cases info <;> rfl
 
 theorem nextMem_inv {m : Memory} (h : m.Inv) (op : DecOp) (info : Info) : (nextMem m op info).Inv := by
-  cases op <;> cases info <;> first | exact writePieces_inv h _ _ _ _ | exact h
+  cases op <;> cases info <;>
+    first | exact writePieces_inv h _ _ _ _ | exact writePieces_inv (writePieces_inv h _ _ _ _) _ _ _ _ | exact h
 
 theorem step_fst_nil_iff (e : Env) {m : Memory} (h : m.Inv) (idx : Nat) (op : DecOp) (info : Info) :
     (step e m idx op info).1 = [] ↔ StepOk e m op info := by
@@ -938,7 +941,7 @@ theorem stepBlock_sound (e : Env) {m : Memory} (h : m.Inv) (idx : Nat) (b : Bloc
 /-- one-step soundness for a DMA -/
 theorem stepDma_sound (e : Env) {m : Memory} (h : m.Inv) (idx : Nat) (d : DmaOp) (i : DmaInfo)
     (herr : (stepDma e m idx d i).1 = []) (hr : d.src.region ≠ e.constRegion) :
-    ∀ byte, d.src.addr ≤ byte → byte < d.src.addr + d.src.len →
+    ∀ byte, d.src.addr ≤ byte → byte < d.src.addr + i.validLen d.src.len →
       m.get d.src.region byte = some (i.srcTid, i.srcDelta) := by
   have hall : ∀ r ∈ dmaReads e d i, r.Ok m := (flatMap_readErr_nil_iff h idx _).mp herr
   unfold dmaReads at hall
